@@ -106,7 +106,15 @@ func gen(rng *rand.Rand, tier core.Tier, emit core.Emit) {
 	if tier == core.Thorough {
 		k = 12
 	}
-	q := func(ds [][]byte) { emit("q", tmo, u.JoinDgrams(ds)) }
+	// every 10th stream of op q is replayed through the details prober (op dp) at the end
+	var dpStreams [][][]byte
+	nq := 0
+	q := func(ds [][]byte) {
+		emit("q", tmo, u.JoinDgrams(ds))
+		if nq++; nq%10 == 0 {
+			dpStreams = append(dpStreams, clone(ds))
+		}
+	}
 
 	// (1) arbitrary bytes, 1..4 datagrams
 	for i := 0; i < 250*k; i++ {
@@ -305,6 +313,9 @@ func gen(rng *rand.Rand, tier core.Tier, emit core.Emit) {
 	if rng.Intn(2) == 0 {
 		emit("flood", tmo, core.Hex(junk(rng, 20)))
 	}
+
+	// (8) the details prober on mostly-valid statuses with hostile values, and on a sample of the streams above
+	genDp(rng, tier, emit, dpStreams)
 }
 
 func permute(ds [][]byte, f func([][]byte)) {
